@@ -165,15 +165,15 @@ pub fn seal_compiled_items(compiled_items: Vec<CompiledItem>) -> (r: Result<MScr
 fn main() {{}}
 """
     obls = [
-        Obl("C04.inmem.instruction", ["C04"], fn="From<CompiledItem> for Instruction::from", desc="conversion of a compiled instruction into the interpreter's Instruction: same opcode, every argument unchanged"),
-        Obl("C04.inmem.functions.add", ["C04"], fn="Functions::add_function", desc="Functions::add_function: the function is registered under exactly its name with exactly the instruction list given"),
-        Obl("C04.inmem.builder.add", ["C04"], fn="MScriptFileBuilder::add_function", desc="MScriptFileBuilder::add_function: name and instruction list handed on unchanged; no unreachable!"),
-        Obl("C04.inmem.seal", ["C04"], fn="seal_compiled_items", desc="seal_compiled_items: the in-memory file holds, per function name, exactly the instruction sequence the compiler emitted (what the writer + loader deliver through a file)"),
+        Obl("C04.inmem.instruction", ["C04", "C18"], fn="From<CompiledItem> for Instruction::from", desc="conversion of a compiled instruction into the interpreter's Instruction: same opcode, every argument unchanged"),
+        Obl("C04.inmem.functions.add", ["C04", "C18"], fn="Functions::add_function", desc="Functions::add_function: the function is registered under exactly its name with exactly the instruction list given"),
+        Obl("C04.inmem.builder.add", ["C04", "C18"], fn="MScriptFileBuilder::add_function", desc="MScriptFileBuilder::add_function: name and instruction list handed on unchanged; no unreachable!"),
+        Obl("C04.inmem.seal", ["C04", "C18"], fn="seal_compiled_items", desc="seal_compiled_items: the in-memory file holds, per function name, exactly the instruction sequence the compiler emitted (what the writer + loader deliver through a file)"),
     ]
     return gen, obls, log
 
 
-UNITS = [VUnit("c04_inmem", ["C04"], "the in-memory route of `run`: compiled items -> functions, unchanged", build)]
+UNITS = [VUnit("c04_inmem", ["C04", "C18"], "the in-memory route of `run`: compiled items -> functions, unchanged", build)]
 UNITS[0].assumes = ["HashMap::insert, Display of a function id (to_string): assumed contracts; Function::new keeps name and instruction list (constructor, by inspection)",
                     "precondition of seal_compiled_items: every item is a function whose body holds instructions only (break / continue placeholders are resolved by the loop compilers: C01.while.layout / C01.from.layout)",
                     "Program::new_from_files and the path key of the file (MScriptFileBuilder::new replaces `\\\\` in the FILE path) are not under contract"]
